@@ -101,10 +101,18 @@ def cases(draw, tier):
                 v[0] = "x" + v[0]
         cols.append({"kind": kind, "values": v})
     nk = draw(st.integers(0, 4))
+    # free keys, and keys that extend, shorten or embed a reserved name
+    # (ncols, nrow_valid, my_author, autho, source_file2 ...)
+    near = st.builds(
+        lambda r, pre, suf, cut: (pre + (r[:-1] if cut else r) + suf)[:25],
+        st.sampled_from(sorted(RESERVED)),
+        st.sampled_from(["", "", "", "my_", "x", "n", "_"]),
+        st.sampled_from(["", "s", "_obs", "2", "_", "s_valid", "x"]),
+        st.booleans())
     keys = draw(st.lists(
-        st.text(string.ascii_lowercase + string.digits + "_", min_size=1,
-                max_size=25).filter(lambda k: k not in RESERVED
-                                    and k.strip("_") != ""),
+        st.one_of(st.text(string.ascii_lowercase + string.digits + "_",
+                          min_size=1, max_size=25), near, near)
+        .filter(lambda k: k not in RESERVED and k.strip("_") != ""),
         min_size=nk, max_size=nk, unique=True))
     comment = {}
     for k in keys:
